@@ -22,7 +22,7 @@ ASSUMPTIONS = [
     "a decryptor key with one flipped bit opening a container by chance (2^-24) and then also passing two MACs (2^-128) is treated as impossible",
     "base files are drawn by a seeded random.Random owned by the enumerating driver; the fault product per base file is complete",
 ]
-REQUIRED_CLASSES = ["fault=byte", "fault=cutbin", "fault=cuttext", "fault=append", "fault=keybit", "framing=bf3", "framing=bec2",
+REQUIRED_CLASSES = ["route=path", "route=stream", "fault=byte", "fault=cutbin", "fault=cuttext", "fault=append", "fault=keybit", "framing=bf3", "framing=bec2",
                     "region=dirsize", "region=entry", "region=payload", "region=header", "base.last-payload-trailing00", "cut.drops-only-00", "payload>4096", "base.enc-tag=fwkey"]
 
 _BASES = {}
@@ -119,6 +119,17 @@ def build(base):
     return b
 
 
+ROUTES = {"stream": 0, "path": 0}
+
+
+def _source(text):
+    """the damaged text reaches the reader through a stream, or (one case in eight, chosen from the text itself) through a file path"""
+    route = "path" if text.isascii() and (len(text) * 31 + sum(map(ord, text[-8:]))) % 8 == 0 else "stream"
+    ROUTES[route] += 1
+    ROUTES["last"] = route
+    return sut.source_for(text, route)
+
+
 def read_content(base, text, decryptors, key_override=None):
     """-> content tuple or the exception raised."""
     import io
@@ -127,10 +138,10 @@ def read_content(base, text, decryptors, key_override=None):
         if base["framing"] == "bf3":
             key = key_override if key_override is not None else base["key"]
             kw = {} if key is None else {"session_key": key}
-            f = sut.Bf3File.read_file(io.StringIO(text), check_cmac=True, **kw)
+            f = sut.Bf3File.read_file(_source(text), check_cmac=True, **kw)
             sk = None
         else:
-            g = sut.Bec2File.read_file(io.StringIO(text), decryptors, check_cmac=True)
+            g = sut.Bec2File.read_file(_source(text), decryptors, check_cmac=True)
             f, sk = g.bf3file, bytes(g.session_key)
     except Exception as e:
         return e
@@ -215,6 +226,7 @@ def check(case, rec):
     if sig_intact:
         rec.nt((base["idx"], fault))
     got = read_content(base, text, decryptors, key_override)
+    rec.cls("route=" + ROUTES.get("last", "stream"))
     if isinstance(got, Exception):
         rec.cls("outcome=error")
         return
